@@ -145,6 +145,8 @@ TRUSTED["C05"] = [
 
 TRUSTED["C03"] = [
     "enumeration lemmas for the reference/roving split (pre_multisetup contract, shared with C14): np.delete as the increasing enumeration of the complement",
+    "thorough tier, SSI_multi_setup: build_hank abstracted to one uninterpreted Hankel matrix per setup (its own contract: C12), svd / pinv / qr / inv as uninterpreted kernels, "
+    "matrix-extensionality lemma for fancy-indexed row selections, trusted instances of the uniqueness of Euclidean division at the loop counter",
 ]
 
 TRUSTED["C17"] = [
@@ -208,6 +210,7 @@ ASSUMPTIONS["C05"] = ["pLSCF_poles: number of model orders enumerated (2 and 3);
                       "recovery of the coefficients of an exact right matrix fraction is NOT proved: bounded stand-in (labelled bounded)"]
 
 ASSUMPTIONS["C03"] = ["split: number of datasets enumerated (2); channel counts, reference lists (any order) and record lengths symbolic",
+                      "SSI_multi_setup structure (thorough tier): 2 setups; reference count, roving counts, block rows (>= 2), ordmax symbolic; ordmax <= br*n_ref and <= (br-1)*n_DOF; step 1",
                       "identification of the global system is NOT proved: bounded stand-in (labelled bounded)"]
 
 ASSUMPTIONS["C17"] = ["factor clause only: channel/reference counts, block rows, record length and number of blocks nb >= 2 symbolic; N >= 2 nb",
@@ -222,8 +225,9 @@ NOT_DECIDED = {
     "C17": ["variance = squared directional derivative / sum of squares over several columns: bounded stand-in only (and it fails: open finding)",
             "the last data block is one sample short when nb divides N (the block slice is clamped to the N-1 available columns) but is still divided by Nb: a small bias the "
             "property does not speak about; the contract models it exactly"],
-    "C03": ["SSI_multi_setup itself (row selection, rescaling by pinv of the reference block, interleaving per block row, shift-invariance solve): exercised by the bounded "
-            "stand-in only, not under a deductive contract",
+    "C03": ["that the structure proved for SSI_multi_setup (thorough tier: per-setup observability matrices, reference / roving row selection with that setup's own stride, re-basing "
+            "O_mov pinv(O_ref) O_ref_first, per-block interleaving references-then-roving in setup order, one-block shift solve) identifies the global system exactly is a theorem "
+            "about SVD / pseudo-inverse: bounded stand-in only; in the quick tier the function is exercised by the bounded stand-in only",
             "that every preprocessing step of MultiSetup_PreGER re-establishes the split is proved under C14 (Inv_M)"],
     "C01": ["that order 2m contains exactly the system's m conjugate pairs (shift-invariance theorem + floating-point conditioning): bounded stand-in only",
             "that the shift-invariance solve of the realisation (proved structurally: SSI_fast / SSI contracts) yields the system matrices of an exact rank-2m Hankel matrix is the "
